@@ -3,7 +3,12 @@
 //! reads; the unwind bound is the one given in the module's `harnesses!` list.
 pub mod base;
 pub mod c07;
+pub mod c09;
+pub mod c10;
 pub mod c11;
+pub mod c12;
+pub mod c13;
+pub mod c14;
 pub mod c15;
 pub mod c16;
 pub mod c17;
@@ -14,7 +19,13 @@ pub mod c20;
 pub fn extend(v: &mut Vec<(&'static str, crate::Body)>) {
     v.extend_from_slice(base::REG);
     v.extend_from_slice(c07::REG);
+    v.extend_from_slice(c09::REG);
+    v.extend_from_slice(c10::REG);
     v.extend_from_slice(c11::REG);
+    v.extend_from_slice(c12::REG);
+    v.extend_from_slice(c12::REG2);
+    v.extend_from_slice(c13::REG);
+    v.extend_from_slice(c14::REG);
     v.extend_from_slice(c15::REG);
     v.extend_from_slice(c16::REG);
     v.extend_from_slice(c17::REG);
